@@ -30,7 +30,7 @@ RULE = (
     "enumeration of 'reject_grid' -> ValueError iff the statement's predicate, success otherwise. "
     "Non-trivial = some duration is an exact decimal multiple of w whose float quotient is not an integer."
 )
-MUST_HIT = ["more_than_256_windows", "input_overlapping_reader", "reader_with_conflicting_window_argument", "hostile_min", "hostile_max", "hostile_sil", "input_reader", "event_of_exactly_minwin", "window_not_whole_samples",
+MUST_HIT = ["event_completed_by_partial_last_window", "input_region", "more_than_256_windows", "input_overlapping_reader", "reader_with_conflicting_window_argument", "hostile_min", "hostile_max", "hostile_sil", "input_reader", "event_of_exactly_minwin", "window_not_whole_samples",
             "grid_reject", "grid_accept"]
 ASSUMPTIONS = [
     "quotients between 1e-11 and 1e-8 from an integer are never generated (statement says 1e-9, code uses 1e-10)",
@@ -72,6 +72,10 @@ def hostile(d, w):
     """exact decimal multiple whose float quotient is not an integer"""
     q = d / w
     return q != round(q)
+
+
+def overlap_requested(case, B):
+    return bool(case.get("overlap")) and case["via_reader"] and B % 2 == 0 and not case.get("wf")
 
 
 def make_audio(pat, B, tail):
@@ -125,7 +129,17 @@ def check_case(case, rec):
               "f": "1" * (2 * kmax + 1), "g": "1" * kmax, "h": "1" * (kmax + 1)}
     gap = "0" * (ksil + 2)
     pat = gap.join(pieces[k] for k in case["order"]) + "0" * case["trail"]
-    data = make_audio(pat, B, case["tail"])
+    tail_loud = bool(case.get("tail_loud")) and case["tail"] > 0 and not overlap_requested(case, B)
+    if tail_loud:
+        # the recording ends with kmin-1 loud windows and a loud partial window: an event of kmin windows
+        if case.get("only_tail_event"):
+            pat = "1" * (kmin - 1)  # the whole recording is that one event
+        else:
+            pat = pat + "0" * (ksil + 2) + "1" * (kmin - 1)
+        data = make_audio(pat, B, 0) + LOUD * case["tail"]
+        classes.add("event_completed_by_partial_last_window")
+    else:
+        data = make_audio(pat, B, case["tail"])
     kw = dict(min_dur=mind, max_dur=maxd, max_silence=sild, drop_trailing_silence=case["drop"],
               strict_min_dur=case["strict"])
     overlap = bool(case.get("overlap")) and via_reader and B % 2 == 0 and not case.get("wf")
@@ -139,12 +153,19 @@ def check_case(case, rec):
             # for a reader input the window is the reader's block duration, whatever else is passed
             kw["analysis_window" if case["conflict_aw"] == "long" else "aw"] = w * 2.5
             classes.add("reader_with_conflicting_window_argument")
+    elif case.get("input") in ("region_fn", "region_method"):
+        src = auditok.AudioRegion(data, sr, 2, 1)
+        kw.update(analysis_window=w)
+        classes.add("input_region")
     else:
         src = data
         kw.update(analysis_window=w, sampling_rate=sr, sample_width=2, channels=1)
-    regions = list(auditok.split(src, **kw))
+    if case.get("input") == "region_method" and not via_reader:
+        regions = list(src.split(**kw))
+    else:
+        regions = list(auditok.split(src, **kw))
     got = [(round(r.start * sr / B), -(-len(r) // B)) for r in regions]
-    valid = [c == "1" for c in pat] + ([False] if case["tail"] else [])
+    valid = [c == "1" for c in pat] + ([tail_loud] if case["tail"] else [])
     if overlap:
         # windows overlap by half: window k covers samples [k*B/2, k*B/2+B); it is active iff it holds a loud
         # sample (half a window at amplitude 4096 is 69 dB).  Durations are still counted in block durations.
@@ -189,9 +210,15 @@ def check_grid(case, rec):
     mind, maxd, sild, w, sr = case["grid"]
     reject = grid_expect(mind, maxd, sild, w, sr)
     data = b"\0\0" * 40
+    kind = case.get("input", "bytes")
+    kw = dict(min_dur=mind, max_dur=maxd, max_silence=sild, analysis_window=w)
     try:
-        res = list(auditok.split(data, min_dur=mind, max_dur=maxd, max_silence=sild, analysis_window=w,
-                                 sampling_rate=sr, sample_width=2, channels=1))
+        if kind == "bytes":
+            res = list(auditok.split(data, sampling_rate=sr, sample_width=2, channels=1, **kw))
+        elif kind == "region_fn":
+            res = list(auditok.split(auditok.AudioRegion(data, sr, 2, 1), **kw))
+        else:
+            res = list(auditok.AudioRegion(data, sr, 2, 1).split(**kw))
         raised = None
     except ValueError as exc:
         raised = exc
@@ -210,6 +237,10 @@ def explicit_cases():
     return [
         base,
         dict(base, via_reader=True, tail=4),
+        dict(base, tail=6, tail_loud=True, input="region_fn", min=[3, "mul"], max=[30, "mul"], sil=[1, "mul"], order="ab"),
+        dict(base, tail=3, tail_loud=True, input="region_method", min=[3, "mul"], max=[30, "mul"], sil=[1, "mul"], order="b"),
+        dict(base, tail=7, tail_loud=True, only_tail_event=True, input="region_fn", min=[3, "mul"], max=[30, "mul"], sil=[1, "mul"]),
+        dict(base, tail=1, tail_loud=True, only_tail_event=True, input="region_method", min=[1, "mul"], max=[5, "mul"], sil=[0, "mul"]),
         dict(base, w="0.005", min=[3, "mul"], max=[257, "mul"], sil=[2, "mul"], order="fgh"),
         dict(base, w="0.01", min=[257, "mul"], max=[300, "mul"], sil=[257, "mul"], order="bdef", via_reader=True),
         dict(base, via_reader=True, conflict_aw="long"),
@@ -223,6 +254,13 @@ def explicit_cases():
         {"grid": [0.07, 0.1, 0.05, 0.01, 1000]},
         {"grid": [0.07, 0.07, 0.0, 0.01, 1000]},
         {"grid": [0.3, 0.3, 0.3, 0.1, 16000]},
+        # the same number of windows written in two ways a few ulps apart
+        {"grid": [3 * 0.1, 0.3, 0.0, 0.1, 1000]},
+        {"grid": [0.1 + 0.2, 0.3, 0.1 + 0.1, 0.1, 1000], "input": "region_fn"},
+        {"grid": [0.7, 7 * 0.1, 0.0, 0.1, 1000], "input": "region_method"},
+        # a window shorter than one sample, whatever the input kind
+        {"grid": [0.1, 0.3, 0.0, 1e-4, 1000], "input": "region_fn"},
+        {"grid": [0.1, 0.3, 0.0, 1e-4, 1000], "input": "region_method"},
         # a hundred thousand windows: the 1e-9 tolerance is absolute, it does not grow with the quotient
         {"grid": [100.000000005, 100.0, 0.0, 0.001, 1000]},
         {"grid": [100.0, 99.999999995, 0.0, 0.001, 1000]},
@@ -272,16 +310,20 @@ def strategy(draw):
         "via_reader": draw(st.booleans()), "overlap": draw(st.integers(0, 3)) == 0, "conflict_aw": draw(st.sampled_from([None, None, "long", "short"])),
         "order": order,
         "trail": draw(st.integers(0, 3)), "tail": draw(st.integers(0, B - 1) | st.just(0)),
+        "tail_loud": draw(st.booleans()), "only_tail_event": draw(st.booleans()), "input": draw(st.sampled_from(["bytes", "region_fn", "region_method"])),
     }
 
 
 def _grid(rates):
+    k = 0
     for sr in rates:
         for w in G_W:
             for mind in G_MIN:
                 for maxd in G_MAX:
                     for sild in G_SIL:
-                        yield {"grid": [mind, maxd, sild, w, sr]}
+                        k += 1
+                        # the kind of input rotates: the decision must not depend on it
+                        yield {"grid": [mind, maxd, sild, w, sr], "input": ("bytes", "region_fn", "region_method")[k % 3]}
 
 
 def jobs(tier, seed):
